@@ -1,7 +1,86 @@
 import FormulaeModel.Driver.Base
+import FormulaeModel.Driver.C04
+import FormulaeModel.Driver.C17
+import FormulaeModel.Spec.C10
+import FormulaeModel.Spec.C17
+import FormulaeModel.Generated.Tables
 namespace FormulaeModel.Driver.C10
-open Lean FormulaeModel FormulaeModel.Driver
+open Lean FormulaeModel FormulaeModel.Driver FormulaeModel.Design FormulaeModel.Driver.C04
 
-def handle (_op : String) (_j : Json) : Option Json := none
+def strLists (j : Json) (k : String) : List (List String) :=
+  (getArr j k).map (fun x => match x with
+    | .arr a => a.toList.filterMap (fun y => match y with | .str s => some s | _ => none)
+    | _ => [])
+
+def boolList (j : Json) (k : String) : List Bool :=
+  (getArr j k).map (fun x => match x with | .bool b => b | _ => false)
+
+/-- raise / warn policy: error mode raises (ValueError) iff something is unseen, otherwise never;
+warning mode warns iff something is unseen; silent never warns -/
+def policyOk (mode : String) (anyUnseen : Bool) (err : Option String) (warn : Bool) : Bool :=
+  if mode == "error" then
+    (if anyUnseen then err == some "ValueError" else err == none) && !warn
+  else err == none && (warn == (mode == "warning" && anyUnseen))
+
+def optStr (j : Json) (k : String) : Option String :=
+  match j.getObjVal? k with
+  | .ok (.str s) => some s
+  | _ => none
+
+def specC10 (j : Json) : Json :=
+  let mode := getStr j "mode"
+  let common : Json :=
+    match j.getObjVal? "common" with
+    | .ok (.obj o) =>
+      let c := Json.obj o
+      let anyUnseen := getBool c "any_unseen"
+      let pol := policyOk mode anyUnseen (optStr c "err") (getBool c "warn")
+      let zr := match c.getObjVal? "new" with
+        | .ok (.arr a) =>
+          Spec.C10.zeroRule (matrixOfJson ((c.getObjVal? "ref").toOption.getD Json.null))
+            (matrixOfJson (.arr a)) (strLists c "col_vars") (strLists c "row_unseen")
+        | _ => true
+      Json.mkObj [("policy_ok", pol), ("zero_rule_ok", zr)]
+    | _ => Json.null
+  let group : Json :=
+    match j.getObjVal? "group" with
+    | .ok (.obj o) =>
+      let g := Json.obj o
+      let anyUnseen := getBool g "any_unseen"
+      let pol := policyOk mode anyUnseen (optStr g "err") (getBool g "warn")
+      let terms := getArr g "terms"
+      let rules := terms.map (fun t =>
+        match t.getObjVal? "new" with
+        | .ok (.arr a) =>
+          Spec.C10.groupRule (matrixOfJson ((t.getObjVal? "ref").toOption.getD Json.null))
+            (matrixOfJson (.arr a)) (getNat t "p") (boolList t "row_new") (boolList t "row_eff")
+        | _ => true)
+      let expectedF := Spec.C10.expectedFactors (terms.map (fun t =>
+        (getStr t "factor", (boolList t "row_new").any id)))
+      let fOk := (optStr g "err").isSome || strList g "factors_with_new_levels" == expectedF
+      let slices := (getArr g "slices").filterMap Driver.C17.sliceOfJson
+      let sOk := (optStr g "err").isSome ||
+        Spec.C17.slicesOk slices (terms.map (fun t => getStr t "name")) (getNat g "ncols")
+      Json.mkObj [("policy_ok", pol), ("group_rule_ok", rules.all id), ("factors_ok", fOk),
+                  ("slices_ok", sOk), ("expected_factors", jStrs expectedF)]
+    | _ => Json.null
+  Json.mkObj [("common", common), ("group", group)]
+
+/-- the configuration object: which (key, value) pairs are accepted, by the model generic in the
+regenerated field table -/
+def configOp (j : Json) : Json :=
+  let key := getStr j "key"
+  let value := getStr j "value"
+  match Config.set Generated.configFields (Config.init Generated.configFields) key value with
+  | .ok st => Json.mkObj [("ok", true), ("value", match Config.get st key with | .ok v => Json.str v | _ => Json.null)]
+  | .error .keyError => errJ "KeyError"
+  | .error .valueError => errJ "ValueError"
+  | .error .attributeError => errJ "AttributeError"
+
+def handle (op : String) (j : Json) : Option Json :=
+  match op with
+  | "c10_spec" => some (specC10 j)
+  | "c10_config" => some (configOp j)
+  | _ => none
 
 end FormulaeModel.Driver.C10
